@@ -14,6 +14,11 @@ import (
 
 var apiIntrinsics map[string]intrinsicFn
 
+// API functions without side effects on the exploration (allowed inside merge attempts)
+var apiPure = map[string]bool{"vBool": true, "vU8": true, "vU16": true, "vU32": true, "vU64": true, "vI64": true, "vI32": true, "vInt": true,
+	"vBig": true, "vBytes": true, "vAssume": true, "vConcretize": true, "vF32": true, "vF64": true, "vSymbolic": true, "vThorough": true, "vAnd": true, "vOr": true, "vImplies": true, "vIte64": true,
+	"vBigLe": true, "vBigLt": true, "vBigEq": true, "vBigOr0": true, "vNilIf": true, "vEq": true, "vProtoSame": true}
+
 // API functions that must see maybe-nil pointers unresolved
 var apiKeepsSymbolicNil = map[string]bool{"vNilIf": true, "vEq": true, "vBigOr0": true}
 
@@ -229,6 +234,10 @@ func init() {
 			return nil
 		}
 		p.assumes = append(p.assumes, p.where(fr, pos))
+		if p.side != nil {
+			p.assertPC(c) // recorded as (=> side c); a side whose assumption cannot hold is simply dead
+			return nil
+		}
 		if len(p.decisions) < len(p.prefix) {
 			p.assertPC(c) // feasibility was established when this prefix was first run
 			return nil
@@ -241,6 +250,13 @@ func init() {
 	}
 	A["vAssert"] = func(p *Path, fr *frame, fn *ssa.Function, args []Value, pos token.Pos) Value {
 		msg, _ := args[1].(StrV).Concrete()
+		// "[Cxx] ..." assertions belong to one property; a run for another property skips them
+		if p.E.Cfg.AssertTag != "" && strings.HasPrefix(msg, "[") {
+			if i := strings.Index(msg, "]"); i > 0 && !strings.Contains(","+msg[1:i]+",", ","+p.E.Cfg.AssertTag+",") {
+				p.res.AssertsSkipped++
+				return nil
+			}
+		}
 		p.checkAssert(args[0].(*Term), "assert", msg, fr, pos)
 		return nil
 	}
